@@ -556,6 +556,8 @@ def finish(prop, tier, seed, runner, level, rule, trusted, floors=None, extra_co
 
 
 def load_floors(prop, tier):
+    if os.environ.get('VERIF_ONLY') or os.environ.get('VERIF_ONLY_CFG'):
+        return {}       # dev filter active: a partial corpus is not measured against the floors of the full one
     p = os.path.join(VERIF, 'floors.json')
     if not os.path.exists(p):
         return {}
